@@ -67,6 +67,10 @@ let run (ic : in_channel) (oc : out_channel) : unit =
             | Exhausted ev -> pr "next exhausted %s ; %s\n" (dec_of_n ev) (tail p)
             | Cand (blk, sk, p') -> Hashtbl.replace pools id p';
               pr "next cand %s %s ; %s\n" (canon_cidr blk) (dec_of_n sk) (tail p')))
+      | ["endpoint"; id] ->
+        (match Hashtbl.find_opt pools id with
+         | None -> pr "nopool\n"
+         | Some _ -> pr "endpoint ok\n")
       | op :: _ -> pr "badcase unknown op %s\n" op
       | [] -> ()
     done
